@@ -63,14 +63,7 @@ func closedCheck(k *h.Case, rp *spec.Program, out string, tag string) bool {
 	}
 	k.Count("labels_checked", int64(len(f.Labels)))
 	// user-written reference targets that may legitimately be undefined
-	userTargets := map[string]bool{}
-	for _, s := range scriptsOf(rp) {
-		allCmds(s.Body, func(c *spec.Cmd) {
-			if c.Name == "goto" && len(c.Args) == 1 {
-				userTargets[strings.Join(c.Args[0].Toks, " ")] = true
-			}
-		})
-	}
+	userTargets := userTargetsOf(rp)
 	for _, it := range rp.Items {
 		if m, ok := it.(*spec.MapScripts); ok {
 			for _, e := range m.Entries {
@@ -181,6 +174,11 @@ func runC04(ctx *h.Ctx) int {
 	prof := profFull()
 	ctx.RunCases("full-programs", ctx.N(5000, 200000), func(k *h.Case) {
 		p := prof
+		p.WCondGoto = 3
+		if k.Index%3 == 1 {
+			// `continue` ending a poryswitch case in the middle of a block: what follows must survive
+			p.PoryContinueAnywhere, p.WPory, p.WContinue = true, 10, 10
+		}
 		if k.Index%3 == 0 {
 			// extra weight on labels in unreachable code
 			p.WLabel, p.AfterJump, p.WBreak, p.WEnd, p.WGoto = 16, 0.9, 12, 8, 8
